@@ -400,7 +400,11 @@ def run (args : List String) : IO UInt32 :=
     | some "peel" => checkPeel c
     | some "comps" => checkComps c
     | some "layout" => checkLayout c
-    | some "plan" => checkPlan strictAll c
+    | some "plan" =>
+      let r := checkPlan strictAll c
+      match r.verdict with
+      | .ok => Driver.C19Planarise.tieFinal r c      -- exact tie of the planar graph with Model/Planarise.lean
+      | _ => r
     | some "planx" => Driver.C19Planarise.checkPlanX c
     | some "skip" => { verdict := .ok, nontrivial := false, stats := [("plan.routerDied", 1)] }
     | _ => { verdict := .diverge "unknown case kind" })
